@@ -37,6 +37,13 @@ Round 4 (state that survives a call), both fail closed:
                 `nonlocal`, decorators (lru_cache ...), mutable default arguments, stores through a name that
                 is not local to the function (module dictionaries, function attributes).  0 on a tree
                 without hidden state.
+
+Round 7 (a fresh signal on the exact branch), both fail closed:
+  exact_draws / random_draws
+                number of np.random.uniform blocks on the path of make_signal's exact / random branch whose
+                result reaches the returned signal (liveness over the assignments; exact branch: through
+                `np.linalg.qr(true_U.transpose())`).  1 / 1 today; 0 for a branch starting from a constant
+                frame; underivable when sim.py reseeds / uses its own generator.
 """
 import ast
 import os
@@ -531,6 +538,74 @@ def _derive():
     emit('signal_draw_rows', ['n_cond', 'n_channel'], draw_shape('make_signal', 0))
     emit('signal_draw_cols', ['n_cond', 'n_channel'], draw_shape('make_signal', 1))
 
+    # ---- round 7: the exact branch consumes a draw ---------------------------------------------
+    def signal_draws(branch):
+        """number of `np.random.uniform` draw blocks on the path of make_signal's exact / random branch
+        whose result reaches the returned signal (exact: through the argument of `np.linalg.qr`).  1 on a
+        tree that draws a fresh signal on that branch, 0 if the branch starts from something else (a fixed
+        frame, a constant); anything unexpected (reseeding, own generators, several draws) is underivable."""
+        def run():
+            tree = ast.parse(open(os.path.join(SRC, 'simulation/sim.py')).read())
+            for n in ast.walk(tree):
+                if isinstance(n, ast.Call):
+                    f = ast.unparse(n.func)
+                    if any(w in f for w in ('seed', 'default_rng', 'RandomState', 'set_state', 'Generator',
+                                            'getstate', 'get_state', 'setstate')):
+                        raise Underivable(f'sim.py touches the random generator state: `{ast.unparse(n)[:60]}`')
+            fn = _func('simulation/sim.py', 'make_signal')
+            ifs = [k for k, n in enumerate(fn.body) if isinstance(n, ast.If) and ast.unparse(n.test) == 'make_exact']
+            if len(ifs) != 1:
+                raise Underivable('expected one top-level `if make_exact:` in make_signal')
+            node = fn.body[ifs[0]]
+            is_draw = lambda n: (isinstance(n, ast.Assign) and isinstance(n.value, ast.Call)
+                                 and ast.unparse(n.value.func) == 'np.random.uniform')
+            all_draws = [n for n in ast.walk(fn) if isinstance(n, ast.Call)
+                         and ast.unparse(n.func).startswith('np.random.')]
+            if len(all_draws) != 1:
+                raise Underivable(f'expected one np.random.* call in make_signal, found {len(all_draws)}')
+            path = list(fn.body[:ifs[0]]) + list(node.body if branch == 'exact' else node.orelse) \
+                + list(fn.body[ifs[0] + 1:])
+            for st in path:
+                if isinstance(st, (ast.For, ast.While, ast.Try, ast.With)) or \
+                        (isinstance(st, ast.If) and any(isinstance(x, ast.Call) and
+                                                        ast.unparse(x.func).startswith('np.random.')
+                                                        for x in ast.walk(st))):
+                    raise Underivable(f'unexpected compound statement on the {branch} path')
+            live = set()          # names that carry the draw
+            count = 0
+            for st in path:
+                if isinstance(st, ast.If):
+                    # conditional post-processing (chol_channel, n_channel_final): must keep the signal live
+                    for b in ast.walk(st):
+                        if 'true_U' in live and isinstance(b, ast.Assign) and 'true_U' in _tnames(b.targets[0]) and \
+                                not ({x.id for x in ast.walk(b.value) if isinstance(x, ast.Name)} & live):
+                            raise Underivable(f'`{ast.unparse(b)[:60]}` drops the signal')
+                    continue
+                if not isinstance(st, ast.Assign) or len(st.targets) != 1:
+                    continue
+                names = {x.id for x in ast.walk(st.value) if isinstance(x, ast.Name)}
+                tn = set(_tnames(st.targets[0]))
+                if is_draw(st):
+                    if tn != {'true_U'}:
+                        raise Underivable(f'the draw is assigned to {sorted(tn)}')
+                    count += 1
+                    live |= tn
+                elif names & live:
+                    if branch == 'exact' and 'Q' in tn:
+                        if ast.unparse(st.value) != 'np.linalg.qr(true_U.transpose())':
+                            raise Underivable(f'Q comes from `{ast.unparse(st.value)}`')
+                    live |= tn
+                else:
+                    live -= tn    # overwritten by something that does not depend on the draw
+            if 'true_U' not in live:
+                return '0'
+            if branch == 'exact' and 'Q' not in live:
+                raise Underivable('the exact branch does not orthonormalise through Q')
+            return str(count)
+        return run
+    emit('exact_draws', [], signal_draws('exact'))
+    emit('random_draws', [], signal_draws('random'))
+
     # ---- round 4: state that survives a call ------------------------------------------------
     emit('input_writes', [], _input_writes)
     emit('module_state', [], _module_state)
@@ -587,6 +662,8 @@ LEAVES = [
          params={'n_cond': 'Nat', 'n_channel': 'Nat'}, ret='Nat'),
     dict(name='signalDrawCols', file=DERIVED, func='signal_draw_cols', kind='func',
          params={'n_cond': 'Nat', 'n_channel': 'Nat'}, ret='Nat'),
+    dict(name='exactDraws', file=DERIVED, func='exact_draws', kind='func', params={}, ret='Nat'),
+    dict(name='randomDraws', file=DERIVED, func='random_draws', kind='func', params={}, ret='Nat'),
     dict(name='inputWrites', file=DERIVED, func='input_writes', kind='func', params={}, ret='Nat'),
     dict(name='moduleState', file=DERIVED, func='module_state', kind='func', params={}, ret='Nat'),
     # native: chol_G = eigvec * np.sqrt(eigval)
